@@ -5,6 +5,7 @@ use serde_json::{json, Value};
 use crate::engine::Ctx;
 
 pub mod c01;
+pub mod c03;
 pub mod c04;
 pub mod c05;
 pub mod c06;
@@ -62,6 +63,7 @@ macro_rules! simple_checks {
 
 simple_checks! {
     "C11" => c11,
+    "C03" => c03,
     "C05" => c05,
     "C06" => c06,
     "C12" => c12,
